@@ -286,7 +286,7 @@ func (c *Ctx) activitySignalRule(rule string) {
 			c.bad(RULE, construct, "-", "the connection loop has no arm receiving peer-activity signals")
 		} else {
 			blocks := armBlocks(arm)
-			hit := reachFromBlock(arm.Body, func(in ssa.Instruction) bool { return blocks[in.Block()] && isCallTo(in, w.ResetDL) }, func(in ssa.Instruction) bool { return !blocks[in.Block()] })
+			hit := reachFromBlock(arm.Body, func(in ssa.Instruction) bool { return inRegion(blocks, in) && isCallTo(in, w.ResetDL) }, func(in ssa.Instruction) bool { return !inRegion(blocks, in) })
 			c.check(hit != nil, RULE, construct, c.ipos(arm.Body.Instrs[0]), "renews the deadline", "peer activity no longer renews the read deadline: calls longer than the timeout fail on a healthy link")
 		}
 	}
